@@ -158,6 +158,7 @@ Masks(h) ==
   LET k == Arity(HandleVal(h)) IN
   {[j \in 1..k |-> IF j = q THEN Hole ELSE Lit(7)] : q \in 1..k}
     \cup (IF TwoHoles /\ k = 2 THEN {<<Hole, Hole>>} ELSE {})
+    \cup (IF TwoHoles /\ k = 3 THEN {<<Hole, Lit(7), Hole>>} ELSE {})
 Refs == {<<"abs", 1>>, <<"math:pow", 2>>, <<"concat", 3>>}
 
 Init == /\ tpl \in Templates
@@ -192,7 +193,7 @@ ArgUniverse == UNION {{[j \in 1..k |-> Lit(t[j])] : t \in Tuples({2, 3}, k)} : k
                  \cup {<<Lit(Neg2)>>}
                  \cup {<<HExpr(h, h), Lit(a)>> : h \in 1..MaxN, a \in {1, 2}}
 MaskUniverse == UNION {{[j \in 1..k |-> IF j = q THEN Hole ELSE Lit(7)] : q \in 1..k} : k \in 1..3}
-                  \cup {<<Hole, Hole>>}
+                  \cup {<<Hole, Hole>>, <<Hole, Lit(7), Hole>>}
 Next == \/ \E i \in 1..MaxN : Create(i)
         \/ EndScope
         \/ \E h \in 1..(MaxN + MaxMakers), args \in ArgUniverse : CallLater(h, args)
